@@ -179,7 +179,11 @@ type waitRec struct {
 	who      string
 	code     int
 	start    int
-	parked   int // 0: never parked
+	parked   int // 0: never parked on a condition variable
+	// realPark: the latest moment at which the task that executes this wait was found parked in a channel operation
+	// (an implementation without condition variables). The latest park before a quiescent point is the one inside
+	// the wait itself, i.e. not before the waiter registered; earlier ones may be for other reasons (a frame reader).
+	realPark int
 	ret      int // 0: never returned
 	err      string
 	cleanup  int  // sequence number of the harness' clean-up broadcast that released it (0: released by the run itself)
@@ -218,6 +222,13 @@ func (c *c20state) parked(task, seq int) {
 }
 
 //go:norace
+func (c *c20state) realParked(task, seq int) {
+	if w := c.curWait[task]; w != nil && w.ret == 0 {
+		w.realPark = seq
+	}
+}
+
+//go:norace
 func (c *c20state) addPanic(s string) { c.panics = append(c.panics, s) }
 
 //go:norace
@@ -252,13 +263,17 @@ func (c *c20state) cleanupBetween(code, from, to int) int {
 //go:norace
 func (c *c20state) snapshot() {
 	for _, w := range c.waits {
-		if w.parked == 0 || w.ret != 0 || w.code >= 40 {
+		since := w.parked
+		if since == 0 {
+			since = w.realPark
+		}
+		if since == 0 || w.ret != 0 || w.code >= 40 {
 			continue
 		}
 		w.quiesced = true
 		for _, r := range c.reqs {
-			if r.code == w.code && r.own != w && r.send > w.parked {
-				c.missed = append(c.missed, fmt.Sprintf("%s waiting for code %d (parked at %d) is still blocked at a quiescent point although %s sent a request with code %d at %d, after it had parked", w.who, w.code, w.parked, r.who, r.code, r.send))
+			if r.code == w.code && r.own != w && r.send > since {
+				c.missed = append(c.missed, fmt.Sprintf("%s waiting for code %d (parked at %d) is still blocked at a quiescent point although %s sent a request with code %d at %d, after it had parked", w.who, w.code, since, r.who, r.code, r.send))
 			}
 		}
 	}
@@ -299,6 +314,7 @@ func execC20(t *testing.T, raw json.RawMessage) *sim.Outcome {
 	peer := &refagent.Peer{Agent: ref}
 	s.Go("upstream", true, func() { peer.Serve(upPeer) })
 	simsync.OnCondPark = func(c *simsync.Cond, task *sched.Task) { st.parked(task.ID, s.Stamp()) }
+	s.OnRealPark = func(task *sched.Task) { st.realParked(task.ID, s.Stamp()) }
 	var wakes []string
 	simsync.OnCondWake = func(c *simsync.Cond, by *sched.Task, woken []*sched.Task) {
 		if len(woken) > 0 {
@@ -506,6 +522,17 @@ func execC20(t *testing.T, raw json.RawMessage) *sim.Outcome {
 			what = "step_cap"
 		}
 		o.Fatal = true
+		if s.TimeStall {
+			// tasks wait in channel operations that only a real timer or deadline of the code under test could still
+			// complete: no verdict about completion - but a waiter that a matching request should have released and
+			// that is still parked was recorded at the quiescent point before
+			for _, m := range st.missed {
+				o.Fail("C20.released", "missed_wakeup", 0, "%s", m)
+			}
+			o.Probe("run_left_waiting_for_real_time")
+			o.Signature = "aborted:time_stall"
+			return o
+		}
 		o.Fail("C20.completes", what, 0, "%s: blocked: %v", what, s.Stuck)
 		o.Signature = "aborted:" + what
 		return o
@@ -565,8 +592,11 @@ func execC20(t *testing.T, raw json.RawMessage) *sim.Outcome {
 		} else {
 			// released by the harness' own clean-up broadcast: it was waiting without a matching request
 			o.Probe("stayed_blocked_without_matching_request")
-			if w.parked != 0 {
+			if w.parked != 0 || w.realPark != 0 {
 				o.Probe("waiter_parked_before_cleanup")
+			}
+			if w.parked == 0 && w.realPark != 0 {
+				o.Probe("waiter_parked_in_a_channel_operation")
 			}
 			sig = append(sig, "stayed")
 		}
